@@ -39,13 +39,36 @@ exit 9
 """
 
 
+_MASTER = {}
+_MASTER_LOCK = __import__("threading").Lock()
+
+
+def _master_stub(name, txt):
+    """the stand-in scripts are written ONCE per process and hard-linked into each work directory:
+    writing an executable per case from a pool of threads races with the other threads' fork+exec
+    (a forked child briefly holds the write descriptor, and executing the script then fails with
+    ETXTBSY inside cglue-bindgen - seen once as a false `tool-rejects-header`)"""
+    with _MASTER_LOCK:
+        if name not in _MASTER:
+            md = os.path.join(WORK, "hdr", f"stubs-{os.getpid()}")
+            os.makedirs(md, exist_ok=True)
+            p = os.path.join(md, name)
+            with open(p, "w") as f:
+                f.write(txt)
+            os.chmod(p, 0o755)
+            _MASTER[name] = p
+        return _MASTER[name]
+
+
 def prepare_dir(d, raw, config):
     os.makedirs(d, exist_ok=True)
-    open(os.path.join(d, "raw.h"), "w").write(raw)
+    with open(os.path.join(d, "raw.h"), "w") as f:
+        f.write(raw)
     for name, txt in (("cbindgen", STUB), ("rustup", STUB_RUSTUP)):
         p = os.path.join(d, name)
-        open(p, "w").write(txt)
-        os.chmod(p, 0o755)
+        if os.path.lexists(p):
+            os.remove(p)
+        os.link(_master_stub(name, txt), p)
     cfg = os.path.join(d, "cglue.toml")
     open(cfg, "w").write("".join(f'{k} = "{v}"\n' for k, v in config.items()))
     return cfg
@@ -59,7 +82,15 @@ def run_tool(tool, d, pre, post, timeout=60):
             os.remove(os.path.join(d, f))
         except FileNotFoundError:
             pass
-    r = subprocess.run([tool] + pre + ["--"] + post, cwd=d, env=env, stdout=subprocess.PIPE, stderr=subprocess.PIPE, text=True, timeout=timeout)
+    for attempt in range(6):
+        r = subprocess.run([tool] + pre + ["--"] + post, cwd=d, env=env, stdout=subprocess.PIPE, stderr=subprocess.PIPE, text=True, timeout=timeout)
+        if "ExecutableFileBusy" not in r.stderr and "Text file busy" not in r.stderr:
+            break
+        # the operating system refused to execute a file that is still open for writing somewhere:
+        # a property of this harness' own process tree, never of the tool
+        __import__("time").sleep(0.2 * (attempt + 1))
+    else:
+        raise Infra("executing the cbindgen stand-in keeps failing with ETXTBSY: " + r.stderr[:200])
     argv = None
     p = os.path.join(d, "argv.txt")
     if os.path.exists(p):
